@@ -91,11 +91,21 @@ class Runner:
             mr = r.get("model_req")
             if mr is not None:
                 mr = dict(mr); mr["id"] = i
-                reqs.append(mr); idx.append(i)
+                reqs.append(mr); idx.append((i, None))
+            for k, er in enumerate(r.get("extra_reqs") or []):
+                er = dict(er); er["id"] = i
+                reqs.append(er); idx.append((i, k))
         outs = leanio.driver(reqs)
         by = {}
-        for i, o in zip(idx, outs):
-            by[i] = o
+        self.extra_outs = {}
+        for (i, k), o in zip(idx, outs):
+            if k is None:
+                by[i] = o
+            else:
+                self.extra_outs.setdefault(i, {})[k] = o
+        for i, r in enumerate(results):
+            if (r.get("extra_reqs") or r.get("model_req") is None) and i not in by and i in self.extra_outs:
+                by[i] = {"_only_extra": True}
         return by
 
     def write_replay(self, tag, payload):
@@ -143,7 +153,12 @@ class Runner:
             for i, r in enumerate(results):
                 dis = None
                 if i in outs and "harness_error" not in r:
-                    dis = mod.compare(r["case"], r, outs[i])
+                    dis = None if outs[i].get("_only_extra") else mod.compare(r["case"], r, outs[i])
+                    if not dis and hasattr(mod, "compare_extra"):
+                        for k, eo in sorted(getattr(self, "extra_outs", {}).get(i, {}).items()):
+                            dis = mod.compare_extra(r["case"], r, k, eo)
+                            if dis:
+                                break
                 self.say(json.dumps({"case": r["case"], "oracle": r.get("oracle"), "model_disagreement": dis,
                                      "harness_error": r.get("harness_error")}, default=str)[:4000])
                 if r.get("oracle") or dis:
@@ -223,7 +238,12 @@ class Runner:
                 if "driverError" in outs[i]:
                     disagreements.append((r, "driver error: " + outs[i]["driverError"]))
                     continue
-                dis = mod.compare(r["case"], r, outs[i])
+                dis = None if outs[i].get("_only_extra") else mod.compare(r["case"], r, outs[i])
+                if not dis and hasattr(mod, "compare_extra"):
+                    for k, eo in sorted(getattr(self, "extra_outs", {}).get(i, {}).items()):
+                        dis = ("driver error: " + eo["driverError"]) if "driverError" in eo else mod.compare_extra(r["case"], r, k, eo)
+                        if dis:
+                            break
                 if dis:
                     disagreements.append((r, dis))
                 else:
